@@ -17,6 +17,9 @@ use alpenglow::types::{Slice, SliceIndex, Slot};
 use alpenglow::{BlockId, Transaction, ValidatorIndex};
 use tokio::sync::{RwLock, mpsc};
 
+#[path = "../shredwire.rs"]
+mod shredwire;
+
 struct RecNet<S, R> {
     sent: Arc<Mutex<Vec<S>>>,
     _r: PhantomData<fn() -> R>,
@@ -297,6 +300,32 @@ impl World {
         };
         let evs = self.drain_events();
         self.rec.step(&format!("dis {slot} {a}"), &format!("{r} | {evs}"));
+    }
+    /// D34: a copy of the genuine shred `vs` whose signature bytes a relay replaced by garbage arrives from
+    /// dissemination and is validated as the node does (`try_new` with the blockstore's cached commitment). It must be
+    /// refused (oracle only). If it is accepted it is stored, as the node would: the responder oracles then show what
+    /// the node serves to its repair peers.
+    fn junk_sig_attempt(&mut self, vs: &ValidatedShred, rng: &mut Rng) {
+        let mut w = shredwire::Wire::of(vs.as_shred());
+        w.sig = rng.bytes(64);
+        let Some(junk) = w.decode() else { return };
+        let (slot, si, _, idx, _) = vs.payload().verif_parts();
+        let store = self.store.clone();
+        let cached = self.rt.block_on(async { store.read().await.cached_commitment(slot, si) });
+        let r = catch(|| ValidatedShred::try_new(junk, cached.as_ref(), &self.pk));
+        let verdict = match &r {
+            Err(_) => "panic",
+            Ok(Ok(_)) => "accepted",
+            Ok(Err(alpenglow::shredder::ShredValidationError::InvalidSignature)) => "InvalidSignature",
+            Ok(Err(alpenglow::shredder::ShredValidationError::Equivocation)) => "Equivocation",
+        };
+        self.rec.count(&format!("junk-signature:cache={}:{verdict}", cached.is_some()));
+        self.rec.oracle(verdict == "InvalidSignature", "unverified-signature-accepted-on-cache-hit", || {
+            format!("shred {idx} of slice {} of slot {} of a correct leader, signature bytes replaced by garbage, validated with the blockstore's cached commitment (present: {}): try_new answered {verdict}", si_usize(si), slot.inner(), cached.is_some())
+        });
+        if let Ok(Ok(v)) = r {
+            let _ = catch(|| self.rt.block_on(async { store.write().await.add_shred_from_dissemination(v).await }));
+        }
     }
     fn repair_block(&mut self, slot: u64, hid: u64, h: &BlockHash) {
         let bid = (Slot::new(slot), h.clone());
@@ -1139,12 +1168,22 @@ fn main() {
             let other_specs = honest_specs(&mut rng, 1, slot, 700);
             let ob: Vec<Built> = other_specs.iter().map(|s| w.build(slot, s)).collect();
             let other = w.declare(slot, ob);
+            let mut junk_victims: Vec<(usize, usize)> = vec![];
             let held = match variant {
                 0 => {
-                    for b in &blk.built {
+                    for (s, b) in blk.built.iter().enumerate() {
                         let mut idx: Vec<usize> = (0..TOTAL_SHREDS).collect();
                         rng.shuffle(&mut idx);
-                        for i in idx.into_iter().take(rng.range(32, 64) as usize) {
+                        idx.truncate(rng.range(32, 64) as usize);
+                        // D34: the lowest index that arrives (moved off the first place) is preceded by a copy with a
+                        // garbage signature; `deshred` takes header and signature from the lowest index present
+                        let victim = *idx.iter().min().expect("32 shreds");
+                        if idx[0] == victim { idx.swap(0, 1); }
+                        for i in idx.iter().copied() {
+                            if i == victim {
+                                w.junk_sig_attempt(&b.shreds[i], &mut rng);
+                                junk_victims.push((s, victim));
+                            }
                             w.dis(slot, &b.shreds[i]);
                         }
                     }
@@ -1183,6 +1222,12 @@ fn main() {
                 reqs.push(RepairRequestType::SliceRoot(bid.clone(), slice_index(s)));
                 for _ in 0..3 {
                     reqs.push(RepairRequestType::Shred(bid.clone(), slice_index(s), ShredIndex::new(rng.below(64) as usize).unwrap()));
+                }
+            }
+            for &(s, v) in &junk_victims {
+                // the shred a garbage copy of which was offered, a stored one and the highest index (regenerated unless stored)
+                for j in [v, 63] {
+                    reqs.push(RepairRequestType::Shred(bid.clone(), slice_index(s), ShredIndex::new(j).unwrap()));
                 }
             }
             // out of range / unknown
